@@ -10,7 +10,10 @@ bodies are the real statements, verbatim (the AST nodes are reused, nothing is r
 
 They execute in the function's real globals (with whatever stubs are patched there).  What the
 extraction drops: the loop header's iteration protocol (the harness supplies a generic element for the
-targets) and nothing else.  `break` / `continue` / `return` inside the loop body make it refuse.
+targets) and nothing else.  A `continue` belonging to this loop (not to a nested one) is rewritten to "leave the
+body with the current locals" - its meaning for one iteration; `break` / `return` inside the loop body make it
+refuse (Refused is an EngineLimit: undecided, never a violation).  `iter(**locals)` evaluates the loop header's
+iterable expression (the real AST node) in the locals left by the prefix.
 The loop must be a top-level statement of the function body.
 """
 from __future__ import annotations
@@ -20,8 +23,11 @@ import inspect
 import textwrap
 
 
-class Refused(Exception):
-    pass
+from .sym import EngineLimit
+
+
+class Refused(EngineLimit):
+    """the function's loop structure is outside what the extraction handles: undecided, never a violation"""
 
 
 _UNSET = object()
@@ -61,6 +67,10 @@ def _compile(name, stmts, local_names, fn, filename, allow_return):
     body = list(stmts)
     if allow_return:
         body = [_wrap_returns(s) for s in body]
+    elif allow_return is None:  # loop body: own-level `continue` leaves the iteration
+        import copy
+
+        body = [_ContWrap(ret).visit(copy.deepcopy(s)) for s in body]
     fdef = ast.FunctionDef(name=name, args=params, body=body + [ret], decorator_list=[], returns=None, type_params=[])
     mod = ast.Module(body=[fdef], type_ignores=[])
     ast.fix_missing_locations(mod)
@@ -106,6 +116,45 @@ class _RetWrap(ast.NodeTransformer):
     visit_AsyncFunctionDef = visit_FunctionDef
 
 
+class _ContWrap(ast.NodeTransformer):
+    """`continue` belonging to THIS loop -> return of the fall-through locals (nested loops keep theirs)"""
+
+    def __init__(self, ret):
+        self.ret = ret
+
+    def visit_Continue(self, node):
+        return ast.copy_location(ast.Return(value=self.ret.value), node)
+
+    def visit_For(self, node):
+        return node
+
+    visit_While = visit_For
+    visit_FunctionDef = visit_For
+    visit_Lambda = visit_For
+    visit_AsyncFunctionDef = visit_For
+
+
+def _own_level(stmts, kinds):
+    """nodes of the given kinds at the level of this loop (not inside nested loops / defs)"""
+    out = []
+
+    def walk(n):
+        for c in ast.iter_child_nodes(n):
+            if isinstance(c, (ast.For, ast.While, ast.FunctionDef, ast.Lambda, ast.AsyncFunctionDef)):
+                if isinstance(c, (ast.For, ast.While)):
+                    # a return inside a nested loop still leaves the function
+                    for m in ast.walk(c):
+                        if isinstance(m, ast.Return) and ast.Return in kinds:
+                            out.append(m)
+                continue
+            if isinstance(c, kinds):
+                out.append(c)
+            walk(c)
+
+    walk(ast.Module(body=list(stmts), type_ignores=[]))
+    return out
+
+
 def _wrap_returns(stmt):
     # NOTE: the only rewriting done anywhere: `return v` -> `return ("return", v)` in prefix/suffix
     return _RetWrap().visit(stmt)
@@ -120,9 +169,8 @@ def pieces(fn, ordinal=0):
     if ordinal >= len(loops):
         raise Refused("function has %d top-level for-loops" % len(loops))
     idx, loop = loops[ordinal]
-    for m in ast.walk(ast.Module(body=loop.body, type_ignores=[])):
-        if isinstance(m, (ast.Break, ast.Continue, ast.Return)):
-            raise Refused("break/continue/return inside loop body")
+    if _own_level(loop.body, (ast.Break, ast.Return)):
+        raise Refused("break/return inside loop body")
     if loop.orelse:
         raise Refused("for-else")
     pre, post = fdef.body[:idx], fdef.body[idx + 1 :]
@@ -137,9 +185,11 @@ def pieces(fn, ordinal=0):
     targets = _names([loop.target], ast.Store)
     return {
         "prefix": _compile("prefix", pre, local_names, fn, filename, True),
-        "body": _compile("body", loop.body, local_names, fn, filename, False),
+        "body": _compile("body", loop.body, local_names, fn, filename, None),
+        "iter": _compile("iter", [ast.Return(value=ast.Tuple(elts=[ast.Constant(value="return"), loop.iter], ctx=ast.Load()))], local_names, fn, filename, False),
         "suffix": _compile("suffix", post, local_names, fn, filename, True),
         "targets": targets,
+        "n_loops": len(loops),
         "iter_src": ast.unparse(loop.iter),
         "locals": local_names,
         "body_src": "\n".join(ast.unparse(s) for s in loop.body),
